@@ -162,7 +162,8 @@ pub enum BuildErr {
 
 impl<T: Sc, M: Mdl<T>> AnyProb<T, M> {
     /// Build through the public builders. `y` has one column per right-hand side; with
-    /// `mrhs == false` it must have exactly one column.
+    /// `mrhs == false` it must have exactly one column. `order` (0..6) permutes the three
+    /// setter calls observations / weights / epsilon: the builder must not care.
     pub fn build(
         model: M,
         y: &DMatrix<T>,
@@ -170,35 +171,39 @@ impl<T: Sc, M: Mdl<T>> AnyProb<T, M> {
         eps: Option<T>,
         mrhs: bool,
         par: bool,
+        order: u8,
     ) -> Result<Self, String> {
+        const PERMS: [[u8; 3]; 6] = [[0, 1, 2], [0, 2, 1], [1, 0, 2], [1, 2, 0], [2, 0, 1], [2, 1, 0]];
+        let perm = PERMS[(order % 6) as usize];
         macro_rules! finish {
-            ($b:expr, $variant:ident) => {{
+            ($b:expr, $obs:expr, $variant:ident) => {{
                 let mut b = $b;
-                if let Some(w) = w {
-                    b = b.weights(w.clone());
-                }
-                if let Some(e) = eps {
-                    b = b.epsilon(e);
+                for step in perm {
+                    match step {
+                        0 => b = b.observations($obs),
+                        1 => {
+                            if let Some(w) = w {
+                                b = b.weights(w.clone());
+                            }
+                        }
+                        _ => {
+                            if let Some(e) = eps {
+                                b = b.epsilon(e);
+                            }
+                        }
+                    }
                 }
                 b.build()
                     .map(AnyProb::$variant)
                     .map_err(|e| format!("{e:?}"))
             }};
         }
+        let yv = || DVector::from_column_slice(y.column(0).clone_owned().as_slice());
         match (mrhs, par) {
-            (false, false) => {
-                let yv = DVector::from_column_slice(y.column(0).clone_owned().as_slice());
-                finish!(LevMarProblemBuilder::new(model).observations(yv), SS)
-            }
-            (false, true) => {
-                let yv = DVector::from_column_slice(y.column(0).clone_owned().as_slice());
-                finish!(LevMarProblemBuilder::new_parallel(model).observations(yv), SP)
-            }
-            (true, false) => finish!(LevMarProblemBuilder::mrhs(model).observations(y.clone()), MS),
-            (true, true) => finish!(
-                LevMarProblemBuilder::mrhs_parallel(model).observations(y.clone()),
-                MP
-            ),
+            (false, false) => finish!(LevMarProblemBuilder::new(model), yv(), SS),
+            (false, true) => finish!(LevMarProblemBuilder::new_parallel(model), yv(), SP),
+            (true, false) => finish!(LevMarProblemBuilder::mrhs(model), y.clone(), MS),
+            (true, true) => finish!(LevMarProblemBuilder::mrhs_parallel(model), y.clone(), MP),
         }
     }
 
